@@ -43,6 +43,9 @@ type plan struct {
 	// loop happens to log there (dialing, a metadata update, a join, a produce or fetch in
 	// flight, a heartbeat), far finer than any virtual instant can.
 	CloseAtLog int
+	// MaxFetches > 0 limits concurrent fetches (kgo.MaxConcurrentFetches): with more brokers than
+	// slots, sources queue at the fetch manager, which Close has to wind down too.
+	MaxFetches int
 }
 
 func genPlan(t *rapid.T) plan {
@@ -60,6 +63,7 @@ func genPlan(t *rapid.T) plan {
 	p.EndTxn = rapid.Bool().Draw(t, "endtxn")
 	p.Pollers = rapid.IntRange(0, 2).Draw(t, "pollers")
 	p.CommitInFlight = rapid.Bool().Draw(t, "commit")
+	p.MaxFetches = rapid.SampledFrom([]int{0, 0, 1, 2}).Draw(t, "maxfetches")
 	if rapid.IntRange(0, 2).Draw(t, "closeatlog?") == 0 {
 		p.CloseAtLog = rapid.IntRange(1, 400).Draw(t, "closeatlog")
 	}
@@ -170,6 +174,9 @@ func TestCloseAlwaysFinishes(t *testing.T) {
 				}
 			case "share":
 				opts = append(opts, kgo.ShareGroup("s13"), kgo.ConsumeTopics("in"), kgo.FetchMaxWait(time.Second))
+			}
+			if p.MaxFetches > 0 && (p.Kind == "consumer" || p.Kind == "group" || p.Kind == "group-block") {
+				opts = append(opts, kgo.MaxConcurrentFetches(p.MaxFetches))
 			}
 			var cl *kgo.Client
 			var readyLog *atomic.Bool
@@ -408,6 +415,9 @@ func TestCloseAlwaysFinishes(t *testing.T) {
 		ev.Case(fmt.Sprintf("%+v", p), inflight)
 		ev.Class("kind:" + p.Kind)
 		ev.Class("net:" + p.NetMode)
+		if p.MaxFetches > 0 && (p.Kind == "consumer" || p.Kind == "group" || p.Kind == "group-block") {
+			ev.Class(fmt.Sprintf("max-concurrent-fetches=%d", p.MaxFetches))
+		}
 		if closedFromLog {
 			ev.Class("close-issued-at-a-client-log-line")
 		}
